@@ -909,7 +909,9 @@ class UTMITranslator(Elaboratable):
             self.tx_ready                 .eq(transmit_translator.tx_ready),
 
             # Connect our inputs to our control translator / register window.
-            control_translator.bus_idle   .eq(~transmit_translator.busy & phy_ready),
+            # (A transmission that's been requested but hasn't yet started also counts as the bus being in use;
+            # otherwise a register write and the transmission could each end up waiting for the other.)
+            control_translator.bus_idle   .eq(~transmit_translator.busy & ~self.tx_valid & phy_ready),
             register_window.ulpi_data_in  .eq(self.ulpi.data.i),
             register_window.ulpi_dir      .eq(self.ulpi.dir.i),
             register_window.ulpi_next     .eq(self.ulpi.nxt.i),
